@@ -2,7 +2,7 @@
 import ast
 
 from .. import compq, pyq
-from ..pysrc import dotted, norm
+from ..pysrc import dotted, norm, flat
 
 R = compq.RM
 FN = "compile_eval_foo_compile"
@@ -27,7 +27,7 @@ def check(ctx, src):
     ne = pyq.contains(f, lambda n: isinstance(n, ast.Assign) and norm(n) == "new_expr = Expression([Symbol('do').replace(expr[0])]).replace(expr)")
     ctx.check(ne is not None, "STAGE-EVAL-ONCE", f"{R}|{FN}|do wrapper", "the body must be wrapped in `do`", R, f.lineno, detail="(do …)")
     rets = sorted((r for r in pyq.walk_no_nested(f) if isinstance(r, ast.Return)), key=lambda r: r.lineno)
-    t = " ".join(ast.unparse(rets[-1].value).split()) if rets else ""
+    t = flat(rets[-1].value) if rets else ""
     ctx.check(len(rets) == 1 and t == "compiler.compile(as_model(value).replace(expr)) if root == 'do-mac' else compiler._compile_branch(body) if root == 'eval-and-compile' else Result()", "STAGE-ROOT", f"{R}|{FN}|per-root result",
               f"the result expression is `{t}`", R, f.lineno, witness="(do-mac 0) compiles to None instead of 0 / eval-when-compile emits run-time code / eval-and-compile emits nothing", detail="do-mac: value; eval-and-compile: body; else: empty")
     reg = comp.macro("do-mac")
@@ -37,7 +37,7 @@ def check(ctx, src):
     ok = [n for n, _ in hs] == ["HyInternalError", "Exception"] and isinstance(hs[0][1].body[-1], ast.Raise) and hs[0][1].body[-1].exc is None and "HyEvalError(str(e), compiler.filename, body, compiler.source)" in norm(hs[1][1].body[-1])
     ctx.check(ok, "STAGE-ERRORS", f"{R}|{FN}|handlers", "HyInternalError must be re-raised, everything else wrapped in HyEvalError", R, f.lineno, detail="HyInternalError: raise; Exception: HyEvalError")
     he = comp.cp.func("HyASTCompiler.eval")
-    ctx.check(he is not None and "hy_eval(model, locals=self.module.__dict__, module=self.module" in norm(he.body[-1]).replace("\n", "") and "import_stdlib=False" in " ".join(ast.unparse(he).split()), "STAGE-EVAL-ONCE", f"{compq.CP}|HyASTCompiler.eval", "compile-time evaluation must run in the module being compiled", compq.CP, 0, detail="hy_eval in self.module")
+    ctx.check(he is not None and "hy_eval(model, locals=self.module.__dict__, module=self.module" in norm(he.body[-1]).replace("\n", "") and "import_stdlib=False" in flat(he), "STAGE-EVAL-ONCE", f"{compq.CP}|HyASTCompiler.eval", "compile-time evaluation must run in the module being compiled", compq.CP, 0, detail="hy_eval in self.module")
     # --- compile once: with
     w = comp.rm.func("compile_with_expression")
     ctx.require(w is not None, "compile_with_expression not found")
